@@ -211,7 +211,7 @@ def gen_dm(count, seed, first_id=8800):
             ops = []
             for _ in range(rng.randint(1, 3)):
                 k = rng.choice(["dm_insert", "dm_insert", "dm_get", "dm_remove", "dm_contains", "dm_len", "dm_alter", "dm_clear"])
-                ops.append(op(k, rng.randrange(3), rng.randint(1, 9) + 10 * t))
+                ops.append(op(k, rng.choice([0, 0, 1, 2]), rng.randint(1, 9) + 10 * t))
             tasks.append(ops)
         out.append(lprog(first_id + i, "pl_dm", tasks, nmap=1))
     return out
@@ -266,6 +266,17 @@ def pl_corpus():
     P.append(lprog(8404, "pl_corpus", [
         [op("up_lock"), op("yield"), op("try_upgrade"), cop("set", 0, 2), op("yield")],
         [op("rd_try"), cop("get"), cop("rd_unlock"), op("wr_try"), cop("wr_unlock"), op("up_try"), cop("up_unlock")]], nrw=1))
+    # DashMap: read-modify-write operations are atomic (no lost update, the key never vanishes in between)
+    P.append(lprog(8405, "pl_corpus", [
+        [op("dm_insert", 0, 1), op("dm_alter", 0, 1), op("dm_get", 0)],
+        [op("dm_alter", 0, 10), op("dm_get", 0)]], nmap=1))
+    P.append(lprog(8406, "pl_corpus", [
+        [op("dm_insert", 0, 1), op("dm_alter", 0, 1), op("dm_alter", 0, 1)],
+        [op("dm_contains", 0), op("dm_contains", 0), op("dm_len", 0)],
+        [op("dm_get", 0), op("dm_get", 0)]], nmap=1))
+    P.append(lprog(8407, "pl_corpus", [
+        [op("dm_insert", 1, 5), op("dm_remove", 1), op("dm_insert", 1, 6)],
+        [op("dm_insert", 1, 7), op("dm_alter", 1, 1), op("dm_get", 1)]], nmap=1))
     return P
 
 
